@@ -22,8 +22,11 @@
 #include "stir/ML_norm.h"
 #include "stir/multiply_crystal_factors.h"
 #include "stir/recon_buildblock/BinNormalisationPETFromComponents.h"
+#include "stir/recon_buildblock/ML_estimate_component_based_normalisation.h"
 #include "stir/SegmentBySinogram.h"
 #include "stir/Succeeded.h"
+#include "stir/stream.h"
+#include <cstdio>
 #include <limits>
 #include <memory>
 
@@ -248,6 +251,41 @@ static void sec_conv(vmc::Ctx& ctx, const Cfg& c)
     });
     ctx.count("crystal_factor_bins_checked", n);
     if (wrong) ctx.violation("clause=multiply_crystal_factors;kind=wrong_product", kase, vmc::str(wrong) + " of " + vmc::str(n) + " bins wrong, first: " + first);
+
+    // compressed data (documented: bin = global * SUM over the crystal pairs of the bin): axial compression span 3 (when the
+    // configuration has max ring difference 1) and view mashing 2; the pairs of a bin are found by inverting get_bin_for_det_pair
+    // over ALL unordered crystal pairs (independent of get_all_det_pos_pairs_for_bin, which the implementation uses)
+    auto compressed = [&](int span, int mash, const std::string& tag) {
+      shared_ptr<ProjDataInfo> q;
+      if (small::throws([&] { q = small::make_pdi(sc, span, c.md, L.D / 2 / mash, c.tangs, false, 0); }, &why)) { ctx.count("rejected_configs"); return; }
+      auto* Q = dynamic_cast<const ProjDataInfoCylindricalNoArcCorr*>(q.get());
+      if (!Q || Q->get_view_mashing_factor() != mash) { ctx.count("rejected_configs"); return; }
+      shared_ptr<ProjDataInMemory> pq = small::make_projdata(q, -7.F);
+      multiply_crystal_factors(*pq, E, 0.5F);
+      ctx.count("evaluations");
+      std::map<std::vector<int>, std::pair<double, int>> ref;
+      for (int ra = 0; ra < L.R; ++ra) for (int a = 0; a < L.D; ++a) for (int rb = ra; rb < L.R; ++rb) for (int b = 0; b < L.D; ++b)
+        {
+          if (a == b || (ra == rb && b < a)) continue; // every unordered pair of different crystals once; a==b is not a LOR
+          Bin bin;
+          if (Q->get_bin_for_det_pair(bin, a, ra, b, rb) != Succeeded::yes) continue;
+          auto& r = ref[{ bin.segment_num(), bin.axial_pos_num(), bin.view_num(), bin.tangential_pos_num() }];
+          r.first += 0.5 * double(E[ra][a]) * double(E[rb][b]); r.second++;
+        }
+      long wrong = 0, n = 0, multi = 0; std::string first;
+      for_all_bins(*pq, [&](const Bin& b, float v) {
+        auto it = ref.find({ b.segment_num(), b.axial_pos_num(), b.view_num(), b.tangential_pos_num() });
+        const double want = it == ref.end() ? 0.0 : it->second.first;
+        const int terms = it == ref.end() ? 0 : it->second.second;
+        ++n; if (terms > 1) ++multi;
+        if (!close_rel(v, want, 8.0 * (terms + 1)) && !wrong++) first = "bin " + small::bin_str(b) + " is " + vmc::str(v) + " expected " + vmc::str(want) + " (sum over " + vmc::str(terms) + " crystal pairs)";
+      });
+      ctx.count("crystal_factor_compressed_bins_checked", n);
+      ctx.count("crystal_factor_compressed_bins_with_several_pairs", multi);
+      if (wrong) ctx.violation("clause=multiply_crystal_factors;kind=wrong_sum_of_products;compression=" + tag, kase, vmc::str(wrong) + " of " + vmc::str(n) + " bins wrong, first: " + first);
+    };
+    if (c.st < 10 && c.md == 1 && L.R >= 2) compressed(3, 1, "span3");
+    if (c.st < 10 && (L.D / 2) % 2 == 0) compressed(1, 2, "mash2");
   }
 
   // ---- BinNormalisationPETFromComponents: efficiency model eps_i eps_j g_ij B_ij on the covered bins, 0 in gaps
@@ -320,6 +358,75 @@ static void sec_conv(vmc::Ctx& ctx, const Cfg& c)
           ctx.violation(std::string("clause=binnorm_components;kind=wrong_efficiency;geo=") + (do_geo ? "1" : "0") + ";block=" + (do_block ? "1" : "0") + ktail, kase,
                         vmc::str(wrong) + " of " + vmc::str(n) + " covered bins wrong, first: " + first);
       }
+
+    // ---- the driver ML_estimate_component_based_normalisation: measured = c^2 * model  =>  its own initialisation
+    //      (efficiencies c, geometric factors 1, block factors 1) is a fixed point of all its iterations.
+    //      Only where every entry of the fan array has a bin (then every fan / class / block sum of the model is > 0).
+    if (do_geo && do_block && c.st < 10)
+      {
+        shared_ptr<ProjDataInMemory> model = small::make_projdata(pdi, 0.F), meas = small::make_projdata(pdi, 0.F);
+        {
+          const ProjDataInfo& p = *pdi;
+          for (int s = p.get_min_segment_num(); s <= p.get_max_segment_num(); ++s)
+            {
+              SegmentBySinogram<float> m = p.get_empty_segment_by_sinogram(s), d = p.get_empty_segment_by_sinogram(s);
+              for (int ax = p.get_min_axial_pos_num(s); ax <= p.get_max_axial_pos_num(s); ++ax)
+                for (int v = p.get_min_view_num(); v <= p.get_max_view_num(); ++v)
+                  for (int t = p.get_min_tangential_pos_num(); t <= p.get_max_tangential_pos_num(); ++t)
+                    { m[ax][v][t] = 1.F + float(long(lab(Bin(s, v, ax, t))) % 5); d[ax][v][t] = 4.F * m[ax][v][t]; }
+              model->set_segment(m); meas->set_segment(d);
+            }
+        }
+        const std::string prefix = ctx.tmpdir + "/c20ml_" + vmc::str(ctx.shard);
+        if (small::throws([&] { ML_estimate_component_based_normalisation(prefix, *meas, *model, 2, 2, true, true, false, false, false); }, &why))
+          {
+            ctx.count("rejected_configs");
+            ctx.observe("ML_estimate_component_based_normalisation rejected: " + kase + " : " + why.substr(0, 120));
+          }
+        else
+          {
+            ctx.count("evaluations");
+            ctx.count("ml_estimate_driver_runs");
+            const double tol = 64.0 * ((2 * F.md + 1) * F.nk() + 4 * L.nab * L.ntb + B.acb * B.tcb * B.acb * B.tcb + 4);
+            DetectorEfficiencies E2; GeoData3D G2; BlockData3D B2;
+            bool readok = true;
+            { std::ifstream f(prefix + "_eff_2_2.out"); f >> E2; readok = readok && bool(f); }
+            { std::ifstream f(prefix + "_geo_2.out"); f >> G2; readok = readok && bool(f); }
+            { std::ifstream f(prefix + "_block_2.out"); f >> B2; readok = readok && bool(f); }
+            for (const char* s : { "_eff_1_1.out", "_eff_1_2.out", "_eff_2_1.out", "_eff_2_2.out", "_geo_1.out", "_geo_2.out", "_block_1.out", "_block_2.out" }) std::remove((prefix + s).c_str());
+            if (!readok || E2.get_length() != F.R || E2[0].get_length() != F.D)
+              ctx.violation("clause=fixed_point;component=driver;kind=output_unreadable" + ktail, kase, "cannot read back the files written by ML_estimate_component_based_normalisation");
+            else
+              {
+                long w = 0; std::string first;
+                // a crystal without any covered bin has fan sum 0 => efficiency 0; a class / block pair without any covered bin => factor 0
+                std::vector<char> has(F.ndet(), 0);
+                for_all(F, [&](int ra, int a, int rb, int, int b) {
+                  Bin bin;
+                  if (P->get_bin_for_det_pair(bin, L.det_with_gaps(a), L.ring_with_gaps(ra), L.det_with_gaps(b), L.ring_with_gaps(rb)) == Succeeded::yes
+                      && std::abs(bin.segment_num()) <= c.md && std::abs(bin.tangential_pos_num()) <= hfs)
+                    has[F.det(ra, a)] = 1;
+                });
+                const bool full = nobin == 0;
+                if (!full) ctx.count("ml_estimate_driver_runs_with_empty_fan_entries");
+                for (int r = 0; r < F.R; ++r) for (int a = 0; a < F.D; ++a)
+                  {
+                    const double want = has[F.det(r, a)] ? 2.0 : 0.0;
+                    if (!close_rel(E2[r][a], want, tol) && !w++) first = "efficiency[" + vmc::str(r) + "][" + vmc::str(a) + "] = " + vmc::str(E2[r][a]) + " expected " + vmc::str(want);
+                  }
+                auto one_or_empty = [&](double v) { return close_rel(v, 1.0, tol) || (!full && v == 0.0); };
+                for (int ra = 0; ra < unit_a; ++ra) for (int a = 0; a < tcb_u / 2; ++a) for (int rb = ra; rb <= F.rb_hi(ra); ++rb) for (int k = -F.h; k <= F.h; ++k)
+                  { const int b = F.b_of(a, k); if (!one_or_empty(G2(ra, a, rb, b)) && !w++) first = "geo" + ent(ra, a, rb, b) + " = " + vmc::str(G2(ra, a, rb, b)) + " expected 1"; }
+                for_all(F, [&](int ra, int a, int rb, int, int b) {
+                  if (ra > rb) return;
+                  const float v = B2(ra / B.acb, a / B.tcb, rb / B.acb, b / B.tcb);
+                  if (!one_or_empty(v) && !w++) first = "block factor of entry " + ent(ra, a, rb, b) + " = " + vmc::str(v) + " expected 1";
+                });
+                if (w) ctx.violation("clause=fixed_point;component=driver;kind=moved" + ktail, kase, vmc::str(w) + " parameters moved away from (eff 2, geo 1, block 1) for measured = 4 x model, first: " + first);
+              }
+          }
+      }
+    else ctx.count("ml_estimate_driver_not_run(no_geo_or_no_block_or_predefined)");
   }
 }
 
@@ -401,7 +508,14 @@ static void sec_apply(vmc::Ctx& ctx, const Cfg& c)
   FanCfg fc;
   if (!fan_cfg(ctx, c, fc)) return;
   const Fan& F = fc.F;
-  const std::vector<double> v0 = labelled(F);
+  ctx.count("configs_apply");
+  if (F.md > 0 && F.h > 0) ctx.nontrivial(kase);
+ // data set 0: labelled (every LOR a distinct integer), all factor cases; data set 1: counts {0,1,2,7} (zeros stay zero), pattern cases only
+ for (int dsi = 0; dsi < 2; ++dsi)
+ {
+  std::vector<double> v0 = labelled(F);
+  if (dsi == 1) { const int alphabet[4] = { 0, 1, 2, 7 }; for_all(F, [&](int ra, int a, int rb, int k, int b) { v0[F.idx(ra, a, rb, k)] = alphabet[(F.lor_id(ra, a, rb, b) * 5 + 3) % 4]; }); }
+  const std::string kase = cfg_str(c) + ";data=" + (dsi ? "counts0127" : "labelled");
   const FanProjData f0 = make_fan(F, v0);
   std::string first;
   if (compare_fan(F, f0, v0, 0, first))
@@ -409,11 +523,11 @@ static void sec_apply(vmc::Ctx& ctx, const Cfg& c)
       ctx.violation("clause=fan_accessor;kind=symmetric_write_read", kase, "writing a symmetric labelled data set through FanProjData::operator() and reading it back differs: " + first);
       return;
     }
-  ctx.count("configs_apply");
-  if (F.md > 0 && F.h > 0) ctx.nontrivial(kase);
   // ---- efficiencies
   const bool pairs = F.ndet() <= (ctx.thorough() ? 64 : 24);
-  for (const EffCase& ec : eff_cases(F, pairs, true))
+  std::vector<EffCase> ecs = eff_cases(F, pairs && dsi == 0, true);
+  if (dsi == 1) ecs.resize(3);
+  for (const EffCase& ec : ecs)
     {
       const DetectorEfficiencies E = to_stir_eff(F, ec.e);
       std::vector<double> ref(F.size());
@@ -429,7 +543,15 @@ static void sec_apply(vmc::Ctx& ctx, const Cfg& c)
       if (w) ctx.violation("clause=unapply_efficiencies;kind=not_restored", kase + ";eff=" + ec.name, vmc::str(w) + " entries not restored, first: " + first);
     }
   // ---- block factors
-  if (!fc.block_ok) ctx.count("apply_configs_without_block(odd_block_count_or_same_block_pairs_in_fan)");
+  if (!fc.block_ok)
+    {
+      if (dsi == 0) ctx.count("apply_configs_without_block(odd_block_count_or_same_block_pairs_in_fan)");
+      if (fc.B.ntb % 2 == 0)
+        ctx.observe("NOT EXECUTED: fans that contain a detector pair inside one block (half fan size > D/2 - crystals per block): BlockData3D(nab, ntb, nab-1, ntb-1) has no entry for "
+                    "a block paired with itself and FanProjData::operator() is unchecked, so apply_block_norm / make_block_data (called unconditionally by "
+                    "ML_estimate_component_based_normalisation) index out of range there (confirmed once with ASan: heap-buffer-overflow in make_block_data for 8 detectors, 2 blocks, fan 7); "
+                    "treated as an undocumented precondition");
+    }
   else
     {
       const Blocks& B = fc.B;
@@ -442,6 +564,7 @@ static void sec_apply(vmc::Ctx& ctx, const Cfg& c)
         for_all(BF, [&](int rA, int A, int rB, int, int Bb) { const long i = rA * B.ntb + A, j = rB * B.ntb + Bb; ids.insert(std::min(i, j) * B.nblk() + std::max(i, j)); });
         for (long id : ids) { cases.push_back({ id, 0.5 }); cases.push_back({ id, 2.0 }); }
       }
+      if (dsi == 1) cases.resize(1);
       for (auto& bc : cases)
         {
           std::vector<double> ref(F.size());
@@ -468,7 +591,7 @@ static void sec_apply(vmc::Ctx& ctx, const Cfg& c)
         }
     }
   // ---- geometric factors
-  if (!fc.geo_ok) ctx.count("apply_configs_without_geo(odd_block_size)");
+  if (!fc.geo_ok) { if (dsi == 0) ctx.count("apply_configs_without_geo(odd_block_size)"); }
   else
     {
       Orbits O(F.R, F.D, c.ab, c.tb);
@@ -500,6 +623,7 @@ static void sec_apply(vmc::Ctx& ctx, const Cfg& c)
         if (w) ctx.violation("clause=unapply_geo_norm;kind=not_restored", kase + ";geo=arbitrary", vmc::str(w) + " entries not restored, first: " + first);
       }
     }
+ }
 }
 
 // ================================================================================================================
@@ -702,15 +826,15 @@ static std::vector<Cfg> enumerate(bool th)
   std::vector<Cfg> v;
   auto add = [&](const char* sec, int st, int D, int tb, int R, int ab, int md, int tangs) { Cfg c; c.sec = sec; c.st = st; c.D = D; c.tb = tb; c.R = R; c.ab = ab; c.md = md; c.tangs = tangs; v.push_back(c); };
   // --- generated scanners without gaps (simplest first)
-  std::vector<int> Ds = th ? std::vector<int>{ 4, 6, 8, 10, 12, 16, 20, 24 } : std::vector<int>{ 8, 12, 16 };
+  std::vector<int> Ds = th ? std::vector<int>{ 4, 6, 8, 10, 12, 16, 20, 24, 32 } : std::vector<int>{ 8, 12, 16 };
   for (int D : Ds)
     for (int tb : divisors(D, 2, D / 2))
-      for (int R = 1; R <= 4; ++R)
+      for (int R = 1; R <= (th ? 5 : 4); ++R)
         for (int ab : divisors(R, 1, R))
           for (int md = 0; md < R; ++md)
             {
               for (int tangs = 1; tangs < D; ++tangs) add("conv", 0, D, tb, R, ab, md, tangs);
-              if (D <= 16)
+              if (D <= (th ? 24 : 16) && R <= 4)
                 for (int tangs = 1; tangs < D; tangs += 2) { add("apply", 0, D, tb, R, ab, md, tangs); add("ml", 0, D, tb, R, ab, md, tangs); }
             }
   // --- generated scanners with virtual crystals: type E1080 (transaxial + axial gap), type mMR (transaxial gap only)
